@@ -122,6 +122,29 @@ impl Kind for purl::PackageType {
     }
 }
 
+/// per-character Unicode lower-case mapping (the documented NuGet rule)
+pub fn name_lower(s: &str) -> String {
+    s.chars().flat_map(|c| c.to_lowercase()).collect()
+}
+
+/// the documented PyPI rule: lower-case, every maximal run of '-', '_', '.' becomes a single '-'
+pub fn pypi_norm(s: &str) -> String {
+    let mut out = String::new();
+    let mut prev_sep = false;
+    for c in s.chars() {
+        if c == '-' || c == '_' || c == '.' {
+            if !prev_sep {
+                out.push('-');
+            }
+            prev_sep = true;
+        } else {
+            prev_sep = false;
+            out.extend(c.to_lowercase());
+        }
+    }
+    out
+}
+
 fn hash_of<H: Hash>(v: &H) -> u64 {
     let mut h = DefaultHasher::new();
     v.hash(&mut h);
@@ -267,6 +290,27 @@ fn handle(req: &Value) -> Value {
         "parse" => dispatch_kind(req, true),
         "build" => dispatch_kind(req, false),
         "tables" => tables::dump(),
+        #[cfg(feature = "pt")]
+        "both" => {
+            // the same string through the type-agnostic and the typed parser, plus the documented name rules
+            // applied (independently) to the type-agnostic name
+            let s = unhex(&req["s"]);
+            let g = GenericPurl::<String>::from_str(&s);
+            let (lower, pypi) = match &g {
+                Ok(p) => (Some(hx(&name_lower(p.name()))), Some(hx(&pypi_norm(p.name())))),
+                Err(_) => (None, None),
+            };
+            json!({"generic": result_json::<String>(g), "typed": result_json::<purl::PackageType>(purl::Purl::from_str(&s)),
+                   "expect_lower": lower, "expect_pypi": pypi})
+        },
+        #[cfg(feature = "pt")]
+        "build_typed" => {
+            let name = unhex(&req["name"]);
+            let mut v = dispatch_kind(req, false);
+            v["expect_lower"] = json!(hx(&name_lower(&name)));
+            v["expect_pypi"] = json!(hx(&pypi_norm(&name)));
+            v
+        },
         "quals" => quals::run(req),
         "checksum" => quals::run_checksum(req),
         #[cfg(feature = "pt")]
